@@ -25,7 +25,7 @@ func (x *Exec) extCall(st *State, call *ast.CallExpr, fn *types.Func, args []*Te
 	case "strings.Repeat":
 		x.oblige(st, "ext", "strings.Repeat count >= 0", Ge(args[1], IntLit(0)), call)
 		r := res()
-		x.axiom(Eq(x.app("str.len", SInt, r[0]), Mul(x.strLen(args[0]), args[1])))
+		x.axiom(Eq(x.app("s.len", SInt, r[0]), Mul(x.strLen(args[0]), args[1])))
 		return r
 	case "strings.Split":
 		// deterministic; assumed: len(Split(s, sep)) == Count(s, sep) + 1 for a non-empty separator
@@ -39,7 +39,7 @@ func (x *Exec) extCall(st *State, call *ast.CallExpr, fn *types.Func, args []*Te
 	case "strings.Contains", "strings.HasPrefix", "strings.HasSuffix", "strings.Index", "strings.Count", "strings.EqualFold", "strings.ContainsRune", "strings.IndexRune":
 		return []*Term{x.pureApp(st, full, sig, args)}
 	case "unicode/utf8.RuneCountInString":
-		n := x.app("str.runecount", SInt, args[0])
+		n := x.app("s.runecount", SInt, args[0])
 		x.axiom(And(Le(IntLit(0), n), Le(n, x.strLen(args[0]))))
 		return []*Term{n}
 	case "fmt.Sprintf", "fmt.Sprint", "fmt.Sprintln", "fmt.Errorf", "errors.New":
@@ -65,7 +65,9 @@ func (x *Exec) extCall(st *State, call *ast.CallExpr, fn *types.Func, args []*Te
 	case "time.Sleep", "time.Now", "time.Since", "time.Duration.Seconds", "time.Duration.Milliseconds", "time.Time.Sub", "time.Time.Unix", "time.Time.UnixMilli":
 		return res()
 	case "context.Cause":
+		// assumed: called after the context's Done channel was closed, where Cause is non-nil
 		r := res()
+		st.assume(Neq(r[0], ifaceNil))
 		return r
 	case "math.Pow", "math.Trunc", "math.Round", "math.Floor", "math.Ceil", "math.Abs", "math.Sqrt", "math.Mod", "math.IsNaN", "math.IsInf", "math.Log", "math.Sin", "math.Cos", "math.Tan", "math.Max", "math.Min", "math.Inf", "math.NaN":
 		return []*Term{x.pureApp(st, full, sig, args)}
@@ -83,6 +85,14 @@ func (x *Exec) extCall(st *State, call *ast.CallExpr, fn *types.Func, args []*Te
 			out = append(out, r)
 		}
 		return out
+	}
+	if purePkgs[pkg] && sig.Results().Len() == 1 && !sig.Variadic() {
+		// pure and deterministic by assumption: an uninterpreted function of the arguments
+		rt := sig.Results().At(0).Type()
+		switch rt.Underlying().(type) {
+		case *types.Basic:
+			return []*Term{x.pureApp(st, full, sig, args)}
+		}
 	}
 	if purePkgs[pkg] {
 		// pure by assumption: results unknown, heaps untouched except fresh result cells
